@@ -23,9 +23,22 @@ def expand_shared(obj, shared):
     return obj
 
 
+HISTORY_W = {"select": 5, "drop": 2, "rename": 4, "mutate": 12, "filter": 9, "arrange": 6, "slice_head": 9, "group_by": 4,
+             "ungroup": 2, "summarize": 5, "join": 5, "union": 3, "alias": 10, "collect": 0}
+
+
 @st.composite
 def c10_case(draw, tier):
     deep = tier == "thorough"
+    if draw(st.integers(0, 9)) < 4:
+        # verb histories: every intermediate table stays alive in a variable and must not change when later verbs
+        # (in particular those that make the SQL side rebuild the tree below an alias()) are applied to it
+        cfg = pipegen.PCfg(weights=HISTORY_W, max_len=10 if deep else 7, min_len=3, expr=Cfg(max_depth=2), sub_len=2,
+                           win_direct=3, max_tables=2)
+        case = draw(pipegen.pipeline_case(cfg))
+        case["mode"] = "history"
+        case["shared"], case["kinds"], case["results"] = [], [], [case["result"]]
+        return case
     cfg = pipegen.PCfg(max_tables=1, expr=Cfg(max_depth=2), agg_in_mutate=True, win_in_mutate=True)
     g = pipegen.PipeGen(draw, cfg)
     v0 = g.source()
@@ -162,6 +175,7 @@ class SharedBuilder(build.Builder):
         super().__init__(case, backend)
         self.shared_mode = shared_mode
         self.cache = {}
+        self.fp0 = {}
 
     def expr(self, e):
         if e[0] == "shared":
@@ -169,6 +183,8 @@ class SharedBuilder(build.Builder):
             if self.shared_mode:
                 if k not in self.cache:
                     self.cache[k] = super().expr(self.case["shared"][k])
+                    # fingerprint at construction: the first verb that receives the object must not change it either
+                    self.fp0[k] = fingerprint(self.cache[k])
                 return self.cache[k]
             return super().expr(copy.deepcopy(self.case["shared"][k]))
         return super().expr(e)
@@ -183,8 +199,11 @@ class C10(Check):
             "taken before and after every verb call, export, build_query, repr and ast_repr - a pre-existing object must not "
             "change; (2) every branch built with the pooled objects exports the same as the branch built with freshly "
             "constructed expressions and as the reference; (3) re-export and repeated build_query give identical results; "
-            "the source frame / SQL table content is unchanged. Polars and SQLite. non-trivial = an aggregate/window "
-            "expression object used >=2 times under >=2 different grouping states or verbs")
+            "the source frame / SQL table content is unchanged. 40% of the cases are general verb histories over 1-2 tables "
+            "(alias, slice_head, window mutates, filter, join, union ... with alias() inserted where SQL asks for a "
+            "subquery): every intermediate table stays alive and is fingerprinted before and after each later verb call, "
+            "export, build_query and repr. Polars and SQLite. non-trivial = an aggregate/window expression object used "
+            ">=2 times under >=2 different grouping states or verbs; or a history of >=5 steps with an alias()")
     N = {"quick": 1500, "thorough": 40000}
 
     def strategy(self, tier):
@@ -212,13 +231,62 @@ class C10(Check):
                 if f"['shared', {k}]" in txt:
                     uses.setdefault(k, []).append((s["verb"], tuple(ref.vars[s["in"]].group)))
         out.nontrivial = any(case["kinds"][k] in ("agg", "win") and len(u) >= 2 and len(set(u)) >= 2 for k, u in uses.items())
+        history = case.get("mode") == "history"
+        if history:
+            out.classes.append("mode:history")
+            n_alias = sum(1 for s in steps if s["verb"] == "alias")
+            out.nontrivial = n_alias >= 1 and len(steps) >= 5
         for kind in ("polars", "sqlite"):
             bk = build.Backend(kind)
             try:
-                self._run_backend(case, expanded, ref, kind, bk, out)
+                if history:
+                    self._run_history(case, ref, kind, bk, out)
+                else:
+                    self._run_backend(case, expanded, ref, kind, bk, out)
             finally:
                 bk.close()
         return out
+
+    def _run_history(self, case, ref, kind, bk, out):
+        import pydiverse.transform as pdt
+
+        prints = {}
+
+        def check_unchanged(after):
+            for key, (obj, fp) in list(prints.items()):
+                now = fingerprint(obj)
+                if now != fp:
+                    out.fail("mutated", f"{kind}:{after}:table", f"{kind}: {key} changed during `{after}`")
+                    prints[key] = (obj, now)
+
+        def on_step(s, b):
+            check_unchanged(s["verb"])
+            prints[f"table:{s['out']}"] = (b.vars[s["out"]], fingerprint(b.vars[s["out"]]))
+
+        res = build.build(case, kind, auto_alias=True, backend=bk, on_step=on_step)
+        if res.error is not None:
+            k, ex = res.error
+            if is_refusal(ex) or engine_quirk(ex, case, ref):
+                out.count("refused")
+            else:
+                out.fail("internal-error", f"{kind}:{res.steps[k]['verb']}:{exc_name(ex)}",
+                         f"{kind}: `{res.steps[k]['verb']}` raised {exc_name(ex)}: {str(ex)[:300]}")
+        # exporting / compiling / printing any of the live tables changes none of them
+        live = [v for v in res.vars if "~" not in v]
+        for v in live[-4:]:
+            try:
+                build.export_polars(res.vars[v])
+                check_unchanged("export")
+                if kind == "sqlite":
+                    res.vars[v] >> pdt.build_query()
+                    check_unchanged("build_query")
+                else:
+                    repr(res.vars[v])
+                    check_unchanged("repr")
+            except BaseException as ex:  # noqa: BLE001
+                reraise_control(ex)
+                continue  # what a pipeline exports is decided by the other checks
+        out.count(f"history_tables:{kind}", len(prints))
 
     def _run_backend(self, case, expanded, ref, kind, bk, out):
         import pydiverse.transform as pdt
@@ -249,10 +317,10 @@ class C10(Check):
                 out.fail("internal-error", f"{kind}:{s['verb']}:{exc_name(ex)}", f"{kind}: `{s['verb']}` with a reused expression object raised "
                          f"{exc_name(ex)}: {str(ex)[:300]} (the same step is accepted by the reference)")
                 return
+            for k, obj in sb.cache.items():
+                prints.setdefault(f"expr:{k}", (obj, sb.fp0[k]))
             check_unchanged(s["verb"])
             prints[f"table:{s['out']}"] = (sb.vars[s["out"]], fingerprint(sb.vars[s["out"]]))
-            for k, obj in sb.cache.items():
-                prints.setdefault(f"expr:{k}", (obj, fingerprint(obj)))
         src_before = {t["name"]: build.export_polars(bk.source(t)) for t in case["tables"]}
         for rv in case["results"]:
             try:
